@@ -151,3 +151,6 @@ UNITS += [fmt_precision]
 for _u in UNITS:
     if not _u.replay:
         _u.replay = replay.battery('C05/driver.cpp', ['battery'])
+
+# planted one-token breaks for the newer units (thorough tier: each must make an obligation fail)
+fmt_precision.planted = [('fm', r'"%\.9g"', '"%.8g"')]
